@@ -434,7 +434,12 @@ def _exec_step(W, st, model, log, stats, bump, seed, progress=False):
         stats.setdefault("_step_events", []).append(res["events"])
     fired = res["fired"] if res["fired"] and res["fired"]["kind"] in ("kill", "torn", "io_error", "interrupt", "short") else None
     out = res["outcome"]
-    failed = fired is not None or (out is not None and "exc" in out) or out is None
+    # whether the operation failed is what the operation itself says (it raised, or its process died); a fault that fired
+    # but was absorbed (a retry that succeeded, a handler that swallowed it) leaves an operation that REPORTS SUCCESS and
+    # must therefore meet every post-condition of a successful one
+    failed = (out is not None and "exc" in out) or out is None
+    if fired is not None and not failed:
+        bump("probes", "fault_absorbed_operation_reported_success")
     after = W.observe()
     op = st["op"]
     keep = st.get("keep_original", op != "inplace_cycle")
